@@ -1309,6 +1309,51 @@ def _while_form(body):
     return nb
 
 
+def early_return_form(body):
+    """`{ a; if c { b; return X } rest; tail }` at the level of a function body is `{ a; if c { b; X } else { rest; tail } }`:
+    a guard that leaves the function early with a value becomes one arm of a conditional value, so that rules which read
+    the *value* of a function see every value it can return, each under its condition"""
+    b = body
+    if not (isinstance(b, dict) and b.get('k') == 'block' and b.get('stmts')):
+        return body
+    for i, st in enumerate(b['stmts']):
+        if not (isinstance(st, dict) and st.get('k') == 'if' and st.get('else') is None):
+            continue
+        th = st.get('then')
+        if isinstance(th, dict) and th.get('k') == 'return':
+            th = {'k': 'block', 'stmts': [], 'expr': th, 'ty': th.get('ty'), 'loc': th.get('loc')}
+        if not (isinstance(th, dict) and th.get('k') == 'block'):
+            continue
+        last = th.get('expr') if th.get('expr') else (th['stmts'][-1] if th.get('stmts') else None)
+        if not (isinstance(last, dict) and last.get('k') == 'return' and last.get('e')):
+            continue
+        nth = dict(th)
+        nth['stmts'] = list(th['stmts']) if th.get('expr') else list(th['stmts'][:-1])
+        nth['expr'] = last['e']
+        rest = dict(b)
+        rest['stmts'] = b['stmts'][i + 1:]
+        new_if = dict(st)
+        new_if['then'] = nth
+        new_if['else'] = early_return_form(rest)
+        new_if['ty'] = b.get('ty')
+        nb = dict(b)
+        nb['stmts'] = b['stmts'][:i]
+        nb['expr'] = new_if
+        return nb
+    return body
+
+
+def fn_value(ev, f, ctx):
+    """value and trace of a function body for rules that decide on the value: early `return X` guards are folded into
+    the value (early_return_form); if a value-carrying early return is still left, the value is ('multi', tail, returns),
+    which no value rule recognises (fail closed) instead of silently standing for the tail expression alone"""
+    v, t = ev.ev(early_return_form(f['thir']), ctx)
+    rets = tuple(strip(e[1]) for e in walk(t) if e[0] == 'RET' and len(e) > 1)
+    if rets:
+        v = ('multi', strip(v), rets)
+    return v, t
+
+
 def canon_counter_loop(t):
     """`let mut i = 0; while i < n { body; i += 1 }` (n loop-invariant, i advanced exactly once, last) is the loop
     `for i in 0..n { body }`: give both spellings the same term"""
